@@ -183,6 +183,29 @@ func sitesReaching(c *Check, in *ssa.Function, set map[*ssa.Function]bool) []ssa
 	return out
 }
 
+// shareRule runs a rule written for another property in a scratch check and re-files the obligations it
+// produces (optionally only some of them) under a rule id of this property: two properties that state the
+// same clause are decided by the same rule, each under its own name.
+func shareRule(c *Check, newID, doc string, min int, oldID string, run func(sub *Check), keep func(key string) bool) {
+	c.Rule(newID, doc, min)
+	sub := engine.NewCheck("tmp", c.P, c.G)
+	run(sub)
+	for _, o := range sub.Obls {
+		if !strings.HasPrefix(o.Key, oldID+"/") || (keep != nil && !keep(o.Key)) {
+			continue
+		}
+		k := strings.TrimPrefix(o.Key, oldID+"/")
+		switch o.Status {
+		case engine.Discharged:
+			c.OK(newID, k, o.Witness, o.Pos)
+		case engine.Violated:
+			c.Bad(newID, k, o.Witness, o.Pos)
+		default:
+			c.Unknown(newID, k, o.Witness, o.Pos)
+		}
+	}
+}
+
 // regionOf: root plus the functions of root's own package reachable from it through statically resolved calls
 // (a function and the private helpers it was split into).
 func regionOf(c *Check, root *ssa.Function) map[*ssa.Function]bool {
